@@ -137,3 +137,21 @@ Qed.
 (* bad tokens are written back unchanged: whatever the normaliser could not tokenise is not altered *)
 Lemma bad_token_verbatim_lemma : forall tok, tok_type tok = TT_bad -> c16_emit tok = tok_raw tok.
 Proof. intros tok H. unfold c16_emit. rewrite H. reflexivity. Qed.
+
+(* C16-F6: the hypothesis c16_ei_okb is a real restriction.  The operator d0 among the ten tokens after an inline image
+   makes findEI reject the image's EI; with a later EI in the stream the inline-image token a filter sees runs to that one.
+   Witness: "BI /W 1 ID a EI Q 0 0 d0 BI /W 1 ID b EI Q" - one readable stream, no VT, two images for the specification,
+   one image token (swallowing the operators in between) for qpdf. *)
+Definition c16_witness_d0 : list N :=
+  [66;73;32;47;87;32;49;32;73;68;32;97;32;69;73;32;81;32;48;32;48;32;100;48;32;66;73;32;47;87;32;49;32;73;68;32;98;32;69;73;32;81].
+
+Lemma ei_heuristic_refuted_lemma :
+  exists c ts, Forall (fun b => b < 256) c /\ ~ In 11 c /\ c16_sem c = Some ts /\ c16_ei_okb c = false /\
+    c16_sem_images ts = [[97; 32]; [98; 32]] /\
+    map tok_raw (filter (fun t => ttype_eqb (tok_type t) TT_inline_image) (c16_tokens c)) <> c16_sem_images ts.
+Proof.
+  exists c16_witness_d0. eexists. split; [|split; [|split; [vm_compute; reflexivity|split; [vm_compute; reflexivity|split; [vm_compute; reflexivity|vm_compute; discriminate]]]]].
+  - apply Forall_forall. intros x Hx. apply N.ltb_lt. revert x Hx. apply forallb_forall. vm_compute. reflexivity.
+  - intros H. assert (X : forallb (fun b => negb (b =? 11)) c16_witness_d0 = true) by (vm_compute; reflexivity).
+    rewrite forallb_forall in X. specialize (X 11 H). discriminate.
+Qed.
